@@ -182,7 +182,7 @@ def package_specs(thorough):
     out = []
     for platform, uv, rep, loop in itertools.product(['default', 'P'], uvs, [0, 1], loops):
         out.append({'platform': platform, 'uv': uv, 'rep': rep, 'loop': loop, 'bp': 0})
-        if loop and platform == 'P' and (thorough or uv != 'one'):
+        if loop and platform == 'P' and uv in ('none', 'two'):
             out.append({'platform': platform, 'uv': uv, 'rep': rep, 'loop': loop, 'bp': 1})
     return out
 
@@ -193,10 +193,11 @@ def package_specs(thorough):
 #          'Pv' setOptionForNode(<special node>, 'g', value) ; store   (special = a replica / aggregate / looped instance)
 #          'Pe' setOptionForNode(<sink node>, '#command.executable', value) ; store   (what checkExecutables does)
 def alphabet(spec, thorough):
-    letters = (['I'] if spec['loop'] else []) + ['Pa', 'Pv']
     if thorough:
-        letters.append('Pe')
-    return letters
+        return (['I'] if spec['loop'] else []) + ['Pa', 'Pv', 'Pe']
+    # quick: DoWhile packages interleave iterations with patches of the latest loop instance; the patch of the plain
+    # node (Pa) is exercised on the packages without a loop
+    return ['I', 'Pv'] if spec['loop'] else ['Pa', 'Pv']
 
 
 def max_len(spec, thorough):
